@@ -192,6 +192,9 @@ In(q)  == SpecConv(CASE q = "distance" -> "Distance" [] q = "velocity" -> "Veloc
                    LammpsReal[q], Csg[q])
 LammpsVec == [
   dumpreader_pos |-> In("distance"), dumpreader_box |-> In("distance"),
+  \* the other coordinate styles the reader accepts: scaled xs ys zs (fraction of the box edge, the box being
+  \* converted once in ReadBox) and unwrapped xu yu zu - the same physical position must come out
+  dumpreader_pos_xs |-> In("distance"), dumpreader_pos_xu |-> In("distance"),
   dumpreader_vel |-> In("velocity"), dumpreader_force |-> In("force"),
   dumpwriter_pos |-> Neg(In("distance")), dumpwriter_box |-> Neg(In("distance")),
   dumpwriter_vel |-> Neg(In("velocity")), dumpwriter_force |-> Neg(In("force")),
@@ -246,7 +249,7 @@ DerivedObs == UNION {
 \* (equal: p/q = 1; opposite: p*q = 1).  Pure identities (zero vector) carry nothing.
 ConstNames == <<"Pi", "kB", "hbar", "bohr2nm", "nm2bohr", "ang2bohr", "bohr2ang", "nm2ang", "ang2nm",
                 "hrt2ev", "ev2hrt", "ev2kj_per_mol", "kcal2kj", "kj2kcal">>
-LammpsNames == <<"dumpreader_pos", "dumpreader_box", "dumpreader_vel", "dumpreader_force",
+LammpsNames == <<"dumpreader_pos", "dumpreader_pos_xs", "dumpreader_pos_xu", "dumpreader_box", "dumpreader_vel", "dumpreader_force",
                  "dumpwriter_pos", "dumpwriter_box", "dumpwriter_vel", "dumpwriter_force",
                  "datareader_pos", "datareader_box", "datareader_mass", "datareader_charge">>
 ASSUME /\ {ConstNames[i] : i \in DOMAIN ConstNames} = DOMAIN ConstVec
